@@ -1,4 +1,4 @@
-package sim
+package scen
 
 import (
 	"bufio"
@@ -36,11 +36,11 @@ type WarcRec struct {
 
 // WarcIndex accumulates records across incremental scans.
 type WarcIndex struct {
-	dir     string
-	offsets map[string]int64 // by base name without .open
-	Recs    []*WarcRec
-	Errs    []string // structural problems that are violations wherever they are
-	TailErr map[string]string
+	dir          string
+	offsets      map[string]int64 // by base name without .open
+	Recs         []*WarcRec
+	Errs         []string // structural problems that are violations wherever they are
+	TailErr      map[string]string
 	EmptyMembers int
 }
 
@@ -48,7 +48,7 @@ func NewWarcIndex(dir string) *WarcIndex {
 	return &WarcIndex{dir: dir, offsets: map[string]int64{}, TailErr: map[string]string{}}
 }
 
-func sha1hex(b []byte) string { s := sha1.Sum(b); return hex.EncodeToString(s[:]) }
+func SHA1Hex(b []byte) string { s := sha1.Sum(b); return hex.EncodeToString(s[:]) }
 
 func b32ToHex(d string) string {
 	d = strings.TrimPrefix(d, "sha1:")
@@ -59,7 +59,7 @@ func b32ToHex(d string) string {
 	return hex.EncodeToString(raw)
 }
 
-func uriKey(u string) string {
+func URIKey(u string) string {
 	pu, err := url.Parse(u)
 	if err != nil {
 		return "unparsable:" + u
@@ -180,7 +180,7 @@ func parseWarcRecord(data []byte) (*WarcRec, error) {
 	rec.Type = rec.Headers["warc-type"]
 	rec.TargetURI = strings.Trim(rec.Headers["warc-target-uri"], "<>")
 	if rec.TargetURI != "" {
-		rec.TargetKey = uriKey(rec.TargetURI)
+		rec.TargetKey = URIKey(rec.TargetURI)
 	}
 	cl, err := strconv.Atoi(rec.Headers["content-length"])
 	if err != nil {
@@ -199,7 +199,7 @@ func parseWarcRecord(data []byte) (*WarcRec, error) {
 		rec.DigestHdr = b32ToHex(d)
 	}
 	if bd := rec.Headers["warc-block-digest"]; bd != "" {
-		if b32ToHex(bd) != sha1hex(block) {
+		if b32ToHex(bd) != SHA1Hex(block) {
 			return nil, fmt.Errorf("WARC-Block-Digest does not match the block")
 		}
 	}
@@ -216,7 +216,7 @@ func parseWarcRecord(data []byte) (*WarcRec, error) {
 			// a truncated HTTP message inside a well-formed record (possible after an origin fault)
 			rec.Headers["x-body-error"] = err.Error()
 		} else {
-			rec.PayloadSHA = sha1hex(body)
+			rec.PayloadSHA = SHA1Hex(body)
 			rec.PayloadLen = len(body)
 		}
 	case "revisit":
